@@ -28,12 +28,12 @@ CONSTANTS MaxPkgs, CLIValidatesVersion, LatchReturnsError, AnalyzerRejectsEmpty
 
 FrontEnds == {"cli", "twin", "analysis", "twin-analysis"}
 IsCLI(fe) == fe \in {"cli", "twin"}
-Classes == {"valid", "badGoVersion", "unknownFailOn", "noMatchPattern", "emptySelection", "badParamValue", "unknownFlag"}
+Classes == {"valid", "badGoVersion", "unknownFailOn", "unknownFailOnLegacy", "noMatchPattern", "emptySelection", "badParamValue", "unknownFlag"}
 \* which step detects the class (documented): flag errors at parse time, version at load/init, the rest at init
 DocStep(c) == CASE c \in {"badParamValue", "unknownFlag"} -> "parse"
                 [] c = "badGoVersion" -> "version"
                 [] c = "emptySelection" -> "select"
-                [] c \in {"unknownFailOn", "noMatchPattern"} -> "construct"
+                [] c \in {"unknownFailOn", "unknownFailOnLegacy", "noMatchPattern"} -> "construct"
                 [] OTHER -> "none"
 
 VARIABLES fe, class, npkgs,        \* the case
@@ -57,7 +57,7 @@ CVersion == /\ IsCLI(fe) /\ pc = "version"        \* loadProgram: NewContext + S
                ELSE pc' = "select" /\ UNCHANGED <<outcome, msgs>>
             /\ UNCHANGED <<pkg, latch, analysed>> /\ Stay
 CSelect == /\ IsCLI(fe) /\ pc = "select"           \* initCheckers: filter, construct, empty check
-           /\ IF class \in {"unknownFailOn", "noMatchPattern", "emptySelection"}
+           /\ IF class \in {"unknownFailOn", "unknownFailOnLegacy", "noMatchPattern", "emptySelection"}
               THEN Fail("error") /\ msgs' = msgs + 1
               ELSE pc' = "run" /\ UNCHANGED <<outcome, msgs>>
            /\ UNCHANGED <<pkg, latch, analysed>> /\ Stay
@@ -79,7 +79,7 @@ APass == /\ ~IsCLI(fe) /\ pc = "pass" /\ pkg <= npkgs
                 IF LatchReturnsError THEN pkg' = pkg + 1 /\ UNCHANGED <<pc, outcome, latch, analysed, msgs>>
                 ELSE Fail("PANIC") /\ UNCHANGED <<pkg, latch, analysed, msgs>>
             ELSE IF InitInvalid THEN latch' = TRUE /\ msgs' = msgs + 1 /\ pkg' = pkg + 1 /\ UNCHANGED <<pc, outcome, analysed>>
-            ELSE IF class \in {"unknownFailOn", "noMatchPattern"} THEN     \* createCheckers fails in every pass
+            ELSE IF class \in {"unknownFailOn", "unknownFailOnLegacy", "noMatchPattern"} THEN     \* createCheckers fails in every pass
                 msgs' = msgs + 1 /\ pkg' = pkg + 1 /\ UNCHANGED <<pc, outcome, latch, analysed>>
             ELSE IF class = "emptySelection" THEN pkg' = pkg + 1 /\ UNCHANGED <<pc, outcome, latch, analysed, msgs>>   \* runs nothing
             ELSE pkg' = pkg + 1 /\ analysed' = analysed + 1 /\ UNCHANGED <<pc, outcome, latch, msgs>>
